@@ -275,9 +275,11 @@ def check(run):
             tensor_case(run, specs, env, cayley(rng), np.array([core.snap(rng.uniform(-2, 2), 8) for _ in range(3)]), "orthogonal+translation")
         tensor_case(run, specs, env, rng.choice(sp), np.zeros(3), "signed-permutation")
         angmom_shift_case(run, specs, np.array([0.5, -1.25, 2.0]))
-    for k in range(1 if quick else 4):
+    # repulsion integrals: angular momenta fixed so that every axis branch of the electron-transfer and horizontal recursions is
+    # exercised (p and d shells on both electrons), centres in general position
+    for k, ls in enumerate([(1, 1)] if quick else [(1, 1), (1, 2), (2, 1), (0, 2), (2, 2)]):
         cs = []
-        specs = [rand_shell(rng, rng.randint(0, 2), cs, nprim=rng.randint(1, 2), nseg=1, exp_lo=0.1, exp_hi=10.0, sph=bool(i % 2)) for i in range(2)]
+        specs = [rand_shell(rng, ls[i], cs, nprim=rng.randint(1, 2), nseg=1, exp_lo=0.1, exp_hi=10.0, sph=bool((i + k) % 2)) for i in range(2)]
         env = pf.default_env(rng, specs)
         motion_case(run, specs, env, cayley(rng), np.array([0.5, 0.25, -1.0]), "orthogonal+translation", ["eri_chemist"])
         motion_case(run, specs, env, rng.choice(sp), np.zeros(3), "signed-permutation", ["eri_chemist"])
